@@ -599,6 +599,62 @@ def one_race(arg) -> Result:
 F24 = "F24-redis-finish-leaves-fetch-in-flight"
 
 
+async def cancel_window(kind: str) -> dict:
+    """C01 / C03 "for every point at which a call is interrupted by task cancellation": a broker call of the given kind on a held
+    message (or an enqueue) is cancelled after exactly k event-loop steps, for every k until it completes"""
+    results = []
+    for k in range(0, 40):
+        s = Session(f"redis://cw-{kind}-{k}")
+        s.consumer(0, "NORMAL", None)
+        if kind != "enqueue":
+            await s.enqueue("w1", "ta", 5, "{}", {"ts": CLOCK.us, "next": CLOCK.us - 1} if kind == "reject-delayed" else {"ts": CLOCK.us})
+            await s.consume(0, ORDERS[0])
+        key = RoutingKey(id_="w1", topic="ta", queue=QUEUE, priority=5)
+        s.msgs.setdefault("w1", {"topic": "ta"})
+        pre = sx(snapshot(s.srv))
+        b = s.broker
+        coro = {"enqueue": lambda: b.enqueue(key, "{}", mk_params({"ts": CLOCK.us})), "ack": lambda: b.ack(key), "nack": lambda: b.nack(key),
+                "reject": lambda: b.reject(key), "reject-delayed": lambda: b.reject(key),
+                "requeue": lambda: b.requeue(key, '{"new": 1}', mk_params({"ts": CLOCK.us, "next": CLOCK.us + 5 * S}))}[kind]()
+        t = asyncio.ensure_future(coro)
+        for _ in range(k):
+            await asyncio.sleep(0)
+        done = t.done()
+        t.cancel()
+        await asyncio.gather(t, return_exceptions=True)
+        for _ in range(5):
+            await asyncio.sleep(0)
+        results.append({"cancel_after_steps": k, "completed": done, "pre": pre, "post": sx(snapshot(s.srv)), "places": s.places("w1")})
+        if done:
+            break
+    return {"kind": kind, "results": results}
+
+
+WINDOW_KINDS = ["enqueue", "ack", "nack", "reject", "reject-delayed", "requeue"]
+
+
+def one_window(arg) -> Result:
+    kind, only = arg
+    res = Result(only or "redis")
+    o = vtime.run(lambda loop: cancel_window(kind), budget=2_000_000)
+    rs = o["results"]
+    res.note(("redis-cancel-window", kind))
+    res.dist["redis-cancel-points:" + kind] += len(rs)
+    if not rs or not rs[-1]["completed"]:
+        res.bad("impl", "a broker call did not complete within 40 event-loop steps", case={"label": "redis-cancel-window", "kind": kind})
+        return res
+    final = rs[-1]["post"]
+    for r in rs:
+        want_places = (0, 1) if kind in ("enqueue", "ack") else (1,)
+        if r["post"] not in (r["pre"], final) or len(r["places"]) not in want_places:
+            res.bad("impl", "a broker call interrupted by cancellation left an in-between state: neither as before the call nor as "
+                            "after it (on Redis every call is one transaction)",
+                    case={"label": "redis-cancel-window", "kind": kind, "cancel_after_steps": r["cancel_after_steps"]},
+                    observed={"state": r["post"][:700], "places": r["places"]}, expected={"either": r["pre"][:700], "or": final[:700]})
+            break
+    return res
+
+
 def one_finish(arg) -> Result:
     seed, lo, hi, only = arg
     res = Result(only or "redis")
@@ -620,6 +676,8 @@ def _dispatch(item) -> Result:
         return one_session(item[1:])
     if kind == "c":
         return one_crash(item[1:])
+    if kind == "w":
+        return one_window(item[1:])
     return one_race(item[1:])
 
 
@@ -631,6 +689,8 @@ def part(ctx, prop: str, profiles: list, n_quick: int = 12, n_deep: int = 60, n_
     items += [("r", ctx["seed"], i, prop) for i in range(race * k)]
     if prop == "C03":
         items += [("f", ctx["seed"], lo, lo + 15, prop) for lo in range(0, 60 if deep else 30, 15)]
+    if prop in ("C01", "C03"):
+        items += [("w", kind, prop) for kind in WINDOW_KINDS]
     res = Result(prop)
     for r in pmap(_dispatch, items):
         res.merge(r)
